@@ -30,7 +30,7 @@ int main(int argc, char **argv) {
   }
   for (int k = 0; k < (DELAY + 400) / 5 && firedAt.load() < 0; k++) std::this_thread::sleep_for(ms(5));
   long long f = firedAt.load(), deadline = schedAt + DELAY;
-  printf("wheel(10 ms, 16, 2): tick thread busy in a handler since %lld ms; schedule(%lld ms) at %lld ms (deadline %lld ms); handler ran at %lld ms\n", startedAt.load(), DELAY, schedAt, deadline, f);
+  printf("wheel(10 ms, 16, 2): tick thread busy in a handler since %lld ms; (re)schedule(%lld ms) at %lld ms (deadline %lld ms); handler ran at %lld ms\n", startedAt.load(), DELAY, schedAt, deadline, f);
   fflush(stdout);
   if (f >= 0 && f + 10 + 2 < deadline) { printf("REPLAY-FAIL: Q3: handler ran %lld ms before its deadline (more than one 10 ms tick early)\n", deadline - f); fflush(stdout); _exit(1); }
   printf("REPLAY-OK: not more than one tick early\n"); fflush(stdout); _exit(0);
